@@ -188,15 +188,29 @@ Started ==
 (* sessions: HTTP (request record, response | revisit record), FTP (resource *)
 (* record at end_transfer, then the control conversation as metadata), then  *)
 (* BaseWARCRecorderSession.close -> flush_session                            *)
+SessItems(kind, shape, body) ==
+  (CASE kind = "http" -> <<S("append", "request", shape), S4("append", "response", shape, body)>>
+     [] kind = "rev"  -> <<S("append", "request", shape),
+                           S4("append", IF par.digests THEN "revisit" ELSE "response", shape, body)>>
+     [] kind = "ftp"  -> <<S("append", "resource", "none"), S("append", "metadata", "none")>>
+     [] kind = "cut"  -> <<S("append", "request", shape)>>)            \* end_response never happens
+  \o <<S("flush", "", ""), S("sessend", "", "")>>
+
 Session(kind, shape, body) ==
   /\ Ready /\ exch < MaxEx
   /\ exch' = exch + 1
-  /\ todo' = (CASE kind = "http" -> <<S("append", "request", shape), S4("append", "response", shape, body)>>
-                [] kind = "rev"  -> <<S("append", "request", shape),
-                                      S4("append", IF par.digests THEN "revisit" ELSE "response", shape, body)>>
-                [] kind = "ftp"  -> <<S("append", "resource", "none"), S("append", "metadata", "none")>>
-                [] kind = "cut"  -> <<S("append", "request", shape)>>)            \* end_response never happens
-             \o <<S("flush", "", ""), S("sessend", "", "")>>
+  /\ todo' = SessItems(kind, shape, body)
+  /\ UNCHANGED <<par, fix, fsvars, pc, recvars, rec, ap, nextRid, runs, faults, crashes, obsvars>>
+
+\* two workers share the recorder: HTTP session A has written its request record when session B runs from
+\* beginning to end (including its flush, which may start the next archive file); A's response arrives afterwards
+\* and goes wherever the recorder is writing by then.  (Records are written by synchronous calls: sessions
+\* interleave only at record granularity.)
+SessionOvl(shape, body, kind2, shape2, body2) ==
+  /\ Ready /\ exch + 1 < MaxEx
+  /\ exch' = exch + 2
+  /\ todo' = <<S("append", "request", shape)>> \o SessItems(kind2, shape2, body2)
+             \o <<S4("append", "response", shape, body), S("flush", "", ""), S("sessend", "", "")>>
   /\ UNCHANGED <<par, fix, fsvars, pc, recvars, rec, ap, nextRid, runs, faults, crashes, obsvars>>
 
 \* flush_session: os.path.getsize(current) > max_size -> next sequence number, (move), new file + warcinfo
@@ -367,6 +381,7 @@ SysNext ==
 EnvNext ==
   \/ (\E a \in BOOLEAN : Startup(a))
   \/ (\E k \in Kinds, s \in Shapes, b \in Bodies : Session(k, s, b))
+  \/ (\E s \in Shapes, b \in Bodies, k2 \in Kinds, s2 \in Shapes, b2 \in Bodies : SessionOvl(s, b, k2, s2, b2))
   \/ Close
   \/ ErrJOpen \/ ErrJWrite \/ ErrJClose \/ ErrAOpen \/ ErrAWrite \/ ErrAClose \/ ErrJRemove
   \/ Crash
